@@ -477,29 +477,184 @@ Proof.
   rewrite Hm in Hf. cbn [orb] in Hf. apply Nat.leb_le in Hf. exact Hf.
 Qed.
 
-Theorem reread_float_sci : forall f dd up sep s m e, kind f = KFloat dd true up sep -> (sep = [DOT] \/ sep = [44%N]) ->
-  fits f (VFloat (S754_finite s m e)) = true ->
-  exists n e10, (10 ^ Z.of_nat dd <= n < 10 ^ (Z.of_nat dd + 1))%Z /\
-    float_text true (size f) dd true up sep (S754_finite s m e) = replace [DOT] sep (sci_text up s n dd e10) /\
-    reread f (VFloat (S754_finite s m e)) = VFloat (sf_of_dec s n (e10 - Z.of_nat dd)).
+(* ---------- the shape of sf_of_dec: a zero, a finite number or an infinity, of the given sign; never a nan *)
+Definition signed_shape (s : bool) (y : spec_float) : Prop :=
+  y = S754_zero s \/ (exists m e, y = S754_finite s m e) \/ y = S754_infinity s.
+
+Lemma shr_1_nonneg : forall mrs, (0 <= shr_m mrs)%Z -> (0 <= shr_m (shr_1 mrs))%Z.
 Proof.
-  intros f dd up sep s m e Hk Hsep Hfits.
-  destruct (fmtE_shape up s m e dd) as [n [e10 [Htxt [Hrange _]]]].
-  exists n, e10. split; [exact Hrange|].
+  intros [m r s0] H. cbn [shr_m] in H. destruct m as [|p|p]; [| |lia].
+  - cbn. lia.
+  - destruct p; cbn; lia.
+Qed.
+
+Lemma iter_shr_nonneg : forall p mrs, (0 <= shr_m mrs)%Z -> (0 <= shr_m (iter_pos shr_1 p mrs))%Z.
+Proof.
+  induction p as [p IH | p IH |]; intros mrs H; cbn [iter_pos].
+  - apply IH. apply IH. apply shr_1_nonneg. exact H.
+  - apply IH. apply IH. exact H.
+  - apply shr_1_nonneg. exact H.
+Qed.
+
+Lemma shr_record_of_loc_m : forall m l, shr_m (shr_record_of_loc m l) = m.
+Proof. intros m [|[| |]]; reflexivity. Qed.
+
+Lemma shr_fexp_nonneg : forall prec emax m e l, (0 <= m)%Z ->
+  (0 <= shr_m (fst (shr_fexp prec emax m e l)))%Z.
+Proof.
+  intros prec emax m e l H. unfold shr_fexp, shr.
+  destruct (fexp prec emax (Zdigits2 m + e) - e)%Z; cbn [fst].
+  - rewrite shr_record_of_loc_m. exact H.
+  - apply iter_shr_nonneg. rewrite shr_record_of_loc_m. exact H.
+  - rewrite shr_record_of_loc_m. exact H.
+Qed.
+
+Lemma round_nearest_even_nonneg : forall m l, (0 <= m)%Z -> (0 <= round_nearest_even m l)%Z.
+Proof.
+  intros m [|[| |]] H; cbn [round_nearest_even]; try lia. destruct (Z.even m); lia.
+Qed.
+
+Lemma binary_round_aux_shape : forall prec emax sx mx ex lx, (0 <= mx)%Z ->
+  signed_shape sx (binary_round_aux prec emax sx mx ex lx).
+Proof.
+  intros prec emax sx mx ex lx H. unfold binary_round_aux.
+  pose proof (shr_fexp_nonneg prec emax mx ex lx H) as H1.
+  destruct (shr_fexp prec emax mx ex lx) as [mrs' e']. cbn [fst] in H1.
+  pose proof (shr_fexp_nonneg prec emax (round_nearest_even (shr_m mrs') (loc_of_shr_record mrs')) e' loc_Exact
+                (round_nearest_even_nonneg _ _ H1)) as H2.
+  destruct (shr_fexp prec emax (round_nearest_even (shr_m mrs') (loc_of_shr_record mrs')) e' loc_Exact)
+    as [mrs'' e'']. cbn [fst] in H2.
+  destruct (shr_m mrs'') as [|p|p]; [left; reflexivity | | lia].
+  destruct (Zle_bool e'' (emax - prec)).
+  - right. left. exists p, e''. reflexivity.
+  - right. right. reflexivity.
+Qed.
+
+Lemma binary_round_shape : forall prec emax sx mx ex, signed_shape sx (binary_round prec emax sx mx ex).
+Proof.
+  intros prec emax sx mx ex. unfold binary_round.
+  destruct (shl_align mx ex (fexp prec emax (Zpos (digits2_pos mx) + ex))) as [mz ez].
+  apply binary_round_aux_shape. lia.
+Qed.
+
+Lemma rn64_shape : forall neg n d, signed_shape neg (rn64 neg n d).
+Proof.
+  intros neg n d. unfold rn64, SFdiv, SFdiv_core_binary. cbv zeta.
+  set (m' := match (0 - 0 - Z.min (fexp 53 1024 (Zdigits2 (Zpos n) + 0 - (Zdigits2 (Zpos d) + 0))) (0 - 0))%Z with
+             | 0%Z => Zpos n
+             | Zpos _ => Z.shiftl (Zpos n) (0 - 0 - Z.min (fexp 53 1024 (Zdigits2 (Zpos n) + 0 - (Zdigits2 (Zpos d) + 0))) (0 - 0))
+             | Zneg _ => 0%Z
+             end).
+  assert (Hm' : (0 <= m')%Z).
+  { unfold m'. destruct (0 - 0 - Z.min (fexp 53 1024 (Zdigits2 (Zpos n) + 0 - (Zdigits2 (Zpos d) + 0))) (0 - 0))%Z eqn:E;
+      try lia. rewrite <- E. apply Z.shiftl_nonneg. lia. }
+  pose proof (Z.div_pos m' (Zpos d) Hm' ltac:(lia)) as Hq. unfold Z.div in Hq.
+  destruct (Z.div_eucl m' (Zpos d)) as [q r].
+  rewrite xorb_false_r. apply binary_round_aux_shape. exact Hq.
+Qed.
+
+Theorem sf_of_dec_shape : forall s n k, signed_shape s (sf_of_dec s n k).
+Proof.
+  intros s n k. unfold sf_of_dec. destruct n as [|p|p]; [left; reflexivity | | left; reflexivity].
+  destruct (400 <? Z.of_nat (length (dec_digits (Zpos p))) + k)%Z; [right; right; reflexivity|].
+  destruct (Z.of_nat (length (dec_digits (Zpos p))) + k <? -400)%Z; [left; reflexivity|].
+  destruct (0 <=? k)%Z eqn:Ek.
+  - apply Z.leb_le in Ek.
+    assert (Hp : (0 < Zpos p * 10 ^ k)%Z) by (apply Z.mul_pos_pos; [lia | apply pow_pos_b; lia]).
+    unfold binary_normalize. destruct s.
+    + destruct (- (Zpos p * 10 ^ k))%Z eqn:E; try lia. apply binary_round_shape.
+    + destruct (Zpos p * 10 ^ k)%Z eqn:E; try lia. apply binary_round_shape.
+  - destruct (10 ^ (- k))%Z; [left; reflexivity | apply rn64_shape | left; reflexivity].
+Qed.
+
+(* ---------- round() inside the E branch *)
+Theorem sci_val_cases : forall s m e dd, sci_raises (S754_finite s m e) dd = false ->
+  sci_val (S754_finite s m e) dd = S754_zero s \/
+  exists m' e', sci_val (S754_finite s m e) dd = S754_finite s m' e'.
+Proof.
+  intros s m e dd H. unfold sci_raises in H. unfold sci_val.
+  unfold py_round in *.
+  destruct (323 <? sci_nd m e dd)%Z; [right; exists m, e; reflexivity|].
+  destruct (sci_nd m e dd <? -308)%Z; [left; reflexivity|].
+  destruct (sf_of_dec_shape s (round_dec m e (sci_nd m e dd)) (- sci_nd m e dd)) as [Hs | [[m' [e' Hs]] | Hs]];
+    rewrite Hs in *.
+  - left. reflexivity.
+  - right. exists m', e'. reflexivity.
+  - discriminate H.
+Qed.
+
+Theorem fits_not_raises : forall f dd up sep x, kind f = KFloat dd true up sep ->
+  fits f (VFloat x) = true -> missing (VFloat x) = false -> sci_raises x dd = false.
+Proof.
+  intros f dd up sep x Hk Hf Hm. unfold fits, render, render_gen in Hf.
+  rewrite Hm, Hk in Hf. cbn [andb] in Hf.
+  destruct (sci_raises x dd); [discriminate Hf | reflexivity].
+Qed.
+
+Lemma fmtE_zero : forall up s d, fmtE up (S754_zero s) d = sci_text up s 0 d 0.
+Proof. intros up s d. reflexivity. Qed.
+
+(* the text of a finite value whose rendering fits, and what it reads back as, from the digits printed *)
+Lemma reread_float_sci_of_text : forall f dd up sep s m e n e10, kind f = KFloat dd true up sep ->
+  (sep = [DOT] \/ sep = [44%N]) -> fits f (VFloat (S754_finite s m e)) = true ->
+  (0 <= n < 10 ^ (Z.of_nat dd + 1))%Z ->
+  fmtE up (sci_val (S754_finite s m e) dd) dd = sci_text up s n dd e10 ->
+  float_text true (size f) dd true up sep (S754_finite s m e) = replace [DOT] sep (sci_text up s n dd e10) /\
+  reread f (VFloat (S754_finite s m e)) = VFloat (sf_of_dec s n (e10 - Z.of_nat dd)).
+Proof.
+  intros f dd up sep s m e n e10 Hk Hsep Hfits Hn Htxt.
+  pose proof (fits_not_raises f dd up sep _ Hk Hfits eq_refl) as Hnr.
   pose proof (fits_float_full f dd true up sep (S754_finite s m e) Hk eq_refl Hfits) as Hlen.
   assert (Hft : float_text true (size f) dd true up sep (S754_finite s m e) =
                 replace [DOT] sep (sci_text up s n dd e10)).
   { unfold float_text. cbn [is_zero negb andb]. rewrite firstn_all2 by exact Hlen.
     unfold float_text_full. cbn [is_zero negb andb]. unfold with_sep. rewrite Htxt. reflexivity. }
   split; [exact Hft|].
-  assert (Hp : (0 < 10 ^ Z.of_nat dd)%Z) by apply pow10_pos.
-  assert (Hn : (0 <= n < 10 ^ (Z.of_nat dd + 1))%Z) by lia.
   assert (Hn0 : (0 <= n)%Z) by lia.
   unfold reread.
-  rewrite (render_float f dd true up sep (S754_finite s m e) Hk eq_refl).
+  rewrite (render_float f dd true up sep (S754_finite s m e) Hk eq_refl Hnr).
   rewrite Hk. cbn [interp]. rewrite Hft.
   rewrite (dialect_roundtrip sep _ _ Hsep (splain_notin_comma _ (sci_text_splain up s n dd e10 Hn0))).
   rewrite (sci_text_parse_padded up s n dd e10 _ Hn). reflexivity.
+Qed.
+
+(* n = 0 only if round() gave a zero (it never does on a finite double: FloatSciReal.sci_val_finite) *)
+Theorem reread_float_sci_range : forall f dd up sep s m e, kind f = KFloat dd true up sep -> (sep = [DOT] \/ sep = [44%N]) ->
+  fits f (VFloat (S754_finite s m e)) = true ->
+  exists n e10, (n = 0 \/ 10 ^ Z.of_nat dd <= n)%Z /\ (0 <= n < 10 ^ (Z.of_nat dd + 1))%Z /\
+    float_text true (size f) dd true up sep (S754_finite s m e) = replace [DOT] sep (sci_text up s n dd e10) /\
+    fmtE up (sci_val (S754_finite s m e) dd) dd = sci_text up s n dd e10 /\
+    reread f (VFloat (S754_finite s m e)) = VFloat (sf_of_dec s n (e10 - Z.of_nat dd)).
+Proof.
+  intros f dd up sep s m e Hk Hsep Hfits.
+  pose proof (fits_not_raises f dd up sep _ Hk Hfits eq_refl) as Hnr.
+  assert (Hp : (0 < 10 ^ Z.of_nat dd)%Z) by apply pow10_pos.
+  destruct (sci_val_cases s m e dd Hnr) as [Hz | [m' [e' Hv]]].
+  - exists 0%Z, 0%Z.
+    assert (Hn : (0 <= 0 < 10 ^ (Z.of_nat dd + 1))%Z) by (split; [lia | apply pow_pos_b; lia]).
+    assert (Htxt : fmtE up (sci_val (S754_finite s m e) dd) dd = sci_text up s 0 dd 0)
+      by (rewrite Hz; apply fmtE_zero).
+    destruct (reread_float_sci_of_text f dd up sep s m e 0 0 Hk Hsep Hfits Hn Htxt) as [H1 H2].
+    split; [left; reflexivity|]. split; [exact Hn|]. split; [exact H1|]. split; [exact Htxt | exact H2].
+  - destruct (fmtE_shape up s m' e' dd) as [n [e10 [Htxt0 [Hrange _]]]].
+    exists n, e10.
+    assert (Hn : (0 <= n < 10 ^ (Z.of_nat dd + 1))%Z) by lia.
+    assert (Htxt : fmtE up (sci_val (S754_finite s m e) dd) dd = sci_text up s n dd e10)
+      by (rewrite Hv; exact Htxt0).
+    destruct (reread_float_sci_of_text f dd up sep s m e n e10 Hk Hsep Hfits Hn Htxt) as [H1 H2].
+    split; [right; lia|]. split; [exact Hn|]. split; [exact H1|]. split; [exact Htxt | exact H2].
+Qed.
+
+Theorem reread_float_sci : forall f dd up sep s m e, kind f = KFloat dd true up sep -> (sep = [DOT] \/ sep = [44%N]) ->
+  fits f (VFloat (S754_finite s m e)) = true ->
+  exists n e10, (0 <= n < 10 ^ (Z.of_nat dd + 1))%Z /\
+    float_text true (size f) dd true up sep (S754_finite s m e) = replace [DOT] sep (sci_text up s n dd e10) /\
+    fmtE up (sci_val (S754_finite s m e) dd) dd = sci_text up s n dd e10 /\
+    reread f (VFloat (S754_finite s m e)) = VFloat (sf_of_dec s n (e10 - Z.of_nat dd)).
+Proof.
+  intros f dd up sep s m e Hk Hsep Hfits.
+  destruct (reread_float_sci_range f dd up sep s m e Hk Hsep Hfits) as [n [e10 [_ H]]].
+  exists n, e10. exact H.
 Qed.
 
 Lemma pow10_range0 : forall d, (0 <= 0 < 10 ^ (Z.of_nat d + 1))%Z.
@@ -510,7 +665,7 @@ Theorem reread_float_sci_zero : forall f dd up sep s, kind f = KFloat dd true up
 Proof.
   intros f dd up sep s Hk Hsep _.
   unfold reread.
-  rewrite (render_float f dd true up sep (S754_zero s) Hk eq_refl).
+  rewrite (render_float f dd true up sep (S754_zero s) Hk eq_refl eq_refl).
   rewrite Hk. cbn [interp].
   assert (Hft : exists d, float_text true (size f) dd true up sep (S754_zero s) =
                 replace [DOT] sep (sci_text up s 0 d 0)).
@@ -527,7 +682,7 @@ Theorem reread_float_fixed_zero : forall f dd up sep s, kind f = KFloat dd false
 Proof.
   intros f dd up sep s Hk Hsep.
   unfold reread.
-  rewrite (render_float f dd false up sep (S754_zero s) Hk eq_refl).
+  rewrite (render_float f dd false up sep (S754_zero s) Hk eq_refl eq_refl).
   rewrite Hk. cbn [interp].
   assert (Hft : exists d, float_text true (size f) dd false up sep (S754_zero s) =
                 replace [DOT] sep (fixed_text s 0 d)).
@@ -543,6 +698,10 @@ Print Assumptions ilog10_spec.
 Print Assumptions sci_text_parse.
 Print Assumptions sci_text_parse_padded.
 Print Assumptions fmtE_shape.
+Print Assumptions sf_of_dec_shape.
+Print Assumptions sci_val_cases.
+Print Assumptions fits_not_raises.
+Print Assumptions reread_float_sci_range.
 Print Assumptions reread_float_sci.
 Print Assumptions reread_float_sci_zero.
 Print Assumptions reread_float_fixed_zero.
